@@ -1,9 +1,253 @@
-(* C20 — result files decode back to the data that was written.  (under construction) *)
-From Coq Require Import ZArith List.
-From Pymoto Require Import Base.Bytes Model.B64 Model.Vti Model.Log Proofs.BytesP Proofs.B64P.
+(* C20 — result files decode back to the data that was written.
+   Statements only; every proof is `exact <lemma>`; Print Assumptions under each.
+   Models: Model/B64.v (RFC 4648, VTK block), Model/Vti.v (write_to_vti, WriteToVTI), Model/Log.v (ScalarToFile).
+   Oracles (explicit premises): f32 = ndarray.astype(float32) per entry (contract: four bytes),
+   fmt = value.__format__(format) (contract where needed: the text does not contain the separator). *)
+From Coq Require Import ZArith List Bool Lia.
+From Pymoto Require Import Base.Bytes Model.Grid Model.B64 Model.Vti Model.Log
+  Proofs.GridP Proofs.BytesP Proofs.B64P Proofs.VtiP Proofs.LogP.
 Import ListNotations.
 Open Scope Z_scope.
 
+(* ------------------------------------------------------------------ base64 and the block header *)
+(* RFC 4648: decoding an encoding gives the bytes back, for ALL byte lists (induction in steps of 3, both paddings) *)
 Theorem C20_b64_roundtrip : forall bs, bytes_ok bs -> b64_decode (b64_encode bs) = Some bs.
 Proof. exact b64_roundtrip. Qed.
 Print Assumptions C20_b64_roundtrip.
+
+Theorem C20_b64_length : forall bs, length (b64_encode bs) = (4 * ((length bs + 2) / 3))%nat.
+Proof. exact b64_encode_length. Qed.
+Print Assumptions C20_b64_length.
+
+(* struct.pack('<Q', v): eight bytes that read back as v *)
+Theorem C20_header_roundtrip : forall v, 0 <= v < 2 ^ 64 ->
+  bytes_ok (le64 v) /\ length (le64 v) = 8%nat /\ le_value (le64 v) = v.
+Proof. intros v Hv. exact (conj (le_bytes_ok 8 v) (conj (le_bytes_length 8 v) (le64_roundtrip v Hv))). Qed.
+Print Assumptions C20_header_roundtrip.
+
+(* the block b64(uint64_le(len)) ++ b64(raw): the data part decodes to raw; the header reads back as the number the
+   code stored (the length of the base64 TEXT; the property does not fix this number, it is modelled as written) *)
+Theorem C20_block_roundtrip : forall raw, bytes_ok raw -> Z.of_nat (length (b64_encode raw)) < 2 ^ 64 ->
+  vtk_block_data (vtk_block raw) = Some raw /\
+  vtk_block_header (vtk_block raw) = Some (Z.of_nat (length (b64_encode raw))).
+Proof. intros raw Hraw Hlen. exact (conj (vtk_block_data_roundtrip raw Hraw) (vtk_block_header_roundtrip raw Hlen)). Qed.
+Print Assumptions C20_block_roundtrip.
+
+(* ------------------------------------------------------------------ cell / point classification *)
+(* FULL statement intended by the property: for every domain whose element and node counts are not multiples of each
+   other, a vector of c*nel entries is cell data and a vector of c*nnodes entries is point data.
+   The second half is FALSE for the code (and the faithful model): C20_classification_literal_refuted.
+   Proved: the statement with the hypothesis on the sizes in play, nel does not divide c*nnodes. *)
+Theorem C20_classification_partial : forall g shape c, wf g ->
+  (size shape = c * nel g -> classify g shape = Cell) /\
+  (size shape = c * nnodes g -> (c * nnodes g) mod nel g <> 0 -> classify g shape = Point).
+Proof. intros g shape c Hwf. exact (conj (classify_cell g shape c Hwf) (classify_point g shape c Hwf)). Qed.
+Print Assumptions C20_classification_partial.
+
+Theorem C20_classification_literal_refuted :
+  exists g c, wf g /\ nnodes g mod nel g <> 0 /\ nel g mod nnodes g <> 0 /\ 1 <= c <= 3 /\
+              classify g [c * nnodes g] = Cell.
+Proof. exact classification_literal_refuted. Qed.
+Print Assumptions C20_classification_literal_refuted.
+
+Theorem C20_neither_is_skipped : forall g shape,
+  size shape mod nel g <> 0 -> size shape mod nnodes g <> 0 -> classify g shape = Skip.
+Proof. exact classify_skip. Qed.
+Print Assumptions C20_neither_is_skipped.
+
+(* ------------------------------------------------------------------ components, padding, blocks *)
+(* a vector of c*n entries (n = nel or nnodes > 0) becomes ONE array, named by its key, with c components;
+   a 2-component point vector of a 2-D domain is written with 3 components through pad3 *)
+Theorem C20_components : forall point dim2 n key ws, 0 < n -> forall c,
+  entry_arrays point dim2 n key [c * n] ws = Ok [mk_array point (point && (c =? 2) && dim2) n c key ws].
+Proof. exact entry_1d. Qed.
+Print Assumptions C20_components.
+
+(* the strided assignments vec_pad[0::3] = v[0::2]; vec_pad[1::3] = v[1::2] give [v0, v1, 0, v2, v3, 0, ...] for every
+   number of nodes nn *)
+Theorem C20_padding : forall (A : Type) (z d : A) nn v, length v = (2 * nn)%nat ->
+  pad3 z nn v = pad_spec z v /\ length (pad3 z nn v) = (3 * nn)%nat /\
+  forall k, (k < nn)%nat ->
+    nth (3 * k) (pad3 z nn v) d = nth (2 * k) v d /\
+    nth (3 * k + 1) (pad3 z nn v) d = nth (2 * k + 1) v d /\
+    nth (3 * k + 2) (pad3 z nn v) d = z.
+Proof. exact @padding_full. Qed.
+Print Assumptions C20_padding.
+
+(* block vectors: every row (shape k x c*n, k not a multiple of n) resp. column (shape c*n x k) becomes its own array,
+   in order, named key(i) *)
+Theorem C20_block_vectors : forall point dim2 n key ws k c, 0 < n -> 1 < k ->
+  (k mod n <> 0 ->
+   entry_arrays point dim2 n key [k; c * n] ws =
+   Ok (map (fun i => mk_array point (point && (c =? 2) && dim2) n c (vec_name point k key i) (block_row (c * n) i ws))
+           (zrange k))) /\
+  entry_arrays point dim2 n key [c * n; k] ws =
+  Ok (map (fun i => mk_array point (point && (c =? 2) && dim2) n c (vec_name point k key i) (block_col k i ws))
+          (zrange k)).
+Proof.
+  intros point dim2 n key ws k c Hn Hk.
+  exact (conj (entry_block_rows point dim2 n key ws Hn k c Hk) (entry_block_cols point dim2 n key ws Hn k c Hk)).
+Qed.
+Print Assumptions C20_block_vectors.
+
+(* ... and row i / column i are the entries (i, j) of the C-ordered input *)
+Theorem C20_block_entries : forall (A : Type) (d : A) cols i data j,
+  (0 <= i -> 0 <= j < cols -> nth (Z.to_nat j) (block_row cols i data) d = nth (Z.to_nat (i * cols + j)) data d) /\
+  (0 <= i < cols -> 0 <= j -> nth (Z.to_nat j) (block_col cols i data) d = nth (Z.to_nat (j * cols + i)) data d).
+Proof. intros A d cols i data j. exact (conj (block_row_nth d cols i data j) (block_col_nth d cols i data j)). Qed.
+Print Assumptions C20_block_entries.
+
+(* ------------------------------------------------------------------ decode = input *)
+(* whatever the shapes were: every array of a file the model writes decodes (data part of its block) to the bytes of
+   its words, and the bytes split back into the words; the file consists of exactly those arrays, point data first *)
+Theorem C20_every_array_decodes : forall g vs ds, Forall vec_ok vs -> vti_arrays g vs = Ok ds ->
+  Forall (fun d => vtk_block_data (vtk_block (concat (da_words d))) = Some (concat (da_words d))
+                   /\ chunk4 (concat (da_words d)) = da_words d) ds.
+Proof. exact vti_arrays_decode. Qed.
+Print Assumptions C20_every_array_decodes.
+
+Theorem C20_file_layout : forall g os ss vs bytes, vti_file g os ss vs = Ok (Some bytes) ->
+  exists pa ca, point_arrays g vs = Ok pa /\ cell_arrays g vs = Ok ca /\ vti_arrays g vs = Ok (pa ++ ca) /\
+    bytes = render_header g os ss
+            ++ render_section (s2z "PointData") (nonempty (point_vecs g vs)) pa
+            ++ render_section (s2z "CellData") (nonempty (cell_vecs g vs)) ca ++ render_footer.
+Proof. exact vti_file_layout. Qed.
+Print Assumptions C20_file_layout.
+
+(* the WholeExtent / Piece Extent text reads back as the element counts of the domain *)
+Theorem C20_extent_describes_domain : forall g, wf g ->
+  map parse_dec (split_on 32 (extent g)) = map Some [0; nelx g; 0; nely g; 0; nelz g].
+Proof. exact extent_parses. Qed.
+Print Assumptions C20_extent_describes_domain.
+
+(* composition with the float32 oracle: the array written for a vector decodes to the float32 images of its entries
+   (padded to three components where required); same for the i-th array of a block *)
+Theorem C20_decode_equals_input : forall (V : Type) (f32 : V -> word), (forall v, word_ok (f32 v)) ->
+  forall point dim2 n key c vals, 0 < n -> length vals = Z.to_nat (c * n) ->
+  let padv := point && (c =? 2) && dim2 in
+  exists d, entry_arrays point dim2 n key [c * n] (map f32 vals) = Ok [d] /\
+    da_point d = point /\ da_name d = key /\ da_ncomp d = (if padv then 3 else c) /\
+    option_map chunk4 (vtk_block_data (vtk_block (concat (da_words d))))
+      = Some (if padv then pad_spec zero_word (map f32 vals) else map f32 vals).
+Proof. exact decode_vector. Qed.
+Print Assumptions C20_decode_equals_input.
+
+Theorem C20_decode_equals_input_block_rows : forall (V : Type) (f32 : V -> word), (forall v, word_ok (f32 v)) ->
+  forall point dim2 n key k c vals, 0 < n -> 1 < k -> k mod n <> 0 ->
+  let padv := point && (c =? 2) && dim2 in
+  exists ds, entry_arrays point dim2 n key [k; c * n] (map f32 vals) = Ok ds /\ length ds = Z.to_nat k /\
+    forall i, 0 <= i < k ->
+      (padv = true -> length (block_row (c * n) i vals) = (2 * Z.to_nat n)%nat) ->
+      let d := nth (Z.to_nat i) ds (mkDA false [] 0 []) in
+      da_point d = point /\ da_name d = vec_name point k key i /\ da_ncomp d = (if padv then 3 else c) /\
+      option_map chunk4 (vtk_block_data (vtk_block (concat (da_words d))))
+        = Some (expected_words V f32 padv (block_row (c * n) i vals)).
+Proof. exact decode_block_rows. Qed.
+Print Assumptions C20_decode_equals_input_block_rows.
+
+Theorem C20_decode_equals_input_block_cols : forall (V : Type) (f32 : V -> word), (forall v, word_ok (f32 v)) ->
+  forall point dim2 n key k c vals, 0 < n -> 1 < k ->
+  let padv := point && (c =? 2) && dim2 in
+  exists ds, entry_arrays point dim2 n key [c * n; k] (map f32 vals) = Ok ds /\ length ds = Z.to_nat k /\
+    forall i, 0 <= i < k ->
+      (padv = true -> length (block_col k i vals) = (2 * Z.to_nat n)%nat) ->
+      let d := nth (Z.to_nat i) ds (mkDA false [] 0 []) in
+      da_point d = point /\ da_name d = vec_name point k key i /\ da_ncomp d = (if padv then 3 else c) /\
+      option_map chunk4 (vtk_block_data (vtk_block (concat (da_words d))))
+        = Some (expected_words V f32 padv (block_col k i vals)).
+Proof. exact decode_block_cols. Qed.
+Print Assumptions C20_decode_equals_input_block_cols.
+
+(* ------------------------------------------------------------------ WriteToVTI file names *)
+(* numbered mode: different iterations write different files (also after the ".vti" suffix rule of write_to_vti);
+   overwrite mode: always the given name *)
+Theorem C20_file_per_iteration : forall saveto i j, 0 <= i -> 0 <= j ->
+  vti_filename (iter_filename saveto false i) = vti_filename (iter_filename saveto false j) -> i = j.
+Proof. exact wvti_filenames_distinct. Qed.
+Print Assumptions C20_file_per_iteration.
+
+Theorem C20_overwrite_name : forall saveto i, iter_filename saveto true i = saveto.
+Proof. exact iter_filename_overwrite. Qed.
+Print Assumptions C20_overwrite_name.
+
+(* the iteration number in the name reads back *)
+Theorem C20_iteration_number_parses : forall w n, 0 <= n -> parse_dec (zpad w (dec n)) = Some n.
+Proof. exact parse_dec_zpad. Qed.
+Print Assumptions C20_iteration_number_parses.
+
+(* ------------------------------------------------------------------ ScalarToFile *)
+(* a history of n >= 1 calls whose logged values keep tags, shapes and entry counts (arrays have more than one entry):
+   the run succeeds, the file has the header line and n rows, row k is  k, then the formatted values of call k in the
+   order they are visited, and has as many columns as the header has names *)
+Theorem C20_log_shape : forall (V : Type) (fmt : V -> str) sep c0 rest,
+  Forall (fun tv => loggable V (snd tv)) c0 ->
+  Forall (fun c => same_call V c0 c /\ Forall (fun tv => loggable V (snd tv)) c) rest ->
+  exists st names,
+    log_run V fmt sep l_init (c0 :: rest) = Ok st /\
+    l_iter st = Z.of_nat (length (c0 :: rest)) /\
+    length (l_lines st) = S (length (c0 :: rest)) /\
+    nth 0 (l_lines st) [] = join sep (s2z "Iteration" :: names) /\
+    forall k, (k < length (c0 :: rest))%nat ->
+      nth (S k) (l_lines st) [] = join sep (dec (Z.of_nat k) :: map fmt (call_vals V (nth k (c0 :: rest) []))) /\
+      length (call_vals V (nth k (c0 :: rest) [])) = length names.
+Proof. exact log_shape. Qed.
+Print Assumptions C20_log_shape.
+
+(* C-contiguous arrays are logged entry by entry in C order *)
+Theorem C20_log_c_order : forall (V : Type) (shape : list Z) (data : list V),
+  Forall (fun s => 0 <= s) shape -> Z.of_nat (length data) = lsize shape ->
+  call_vals V [([], LArr shape data false)] = data.
+Proof.
+  intros V shape data Hs Hl.
+  exact (eq_trans (app_nil_r _) (sig_vals_c_order V shape data Hs Hl)).
+Qed.
+Print Assumptions C20_log_c_order.
+
+(* reading back: the lines of the file are recovered by splitting at "\n"; a row splits at the separator character
+   into its columns, the first of which parses to the iteration number (format oracle contract: no column text
+   contains the separator) *)
+Theorem C20_log_lines_parse : forall ls, Forall (Forall (fun x => x <> 10)) ls ->
+  split_on 10 (unlines ls) = ls ++ [[]].
+Proof. exact split_unlines. Qed.
+Print Assumptions C20_log_lines_parse.
+
+Theorem C20_log_row_parses : forall c k texts, 0 <= k -> ~ is_digit c -> Forall (Forall (fun x => x <> c)) texts ->
+  split_on c (join [c] (dec k :: texts)) = dec k :: texts /\ parse_dec (dec k) = Some k.
+Proof. exact row_parses. Qed.
+Print Assumptions C20_log_row_parses.
+
+(* ------------------------------------------------------------------ non-vacuity *)
+Definition G (a b c : Z) : grid := {| nelx := a; nely := b; nelz := c |}.
+Definition w1 (k : Z) : word := [k; 0; 128; 63].
+
+(* the hypotheses of the classification theorem hold on a 2 x 2 grid for 1, 2 and 3 nodal components *)
+Example C20_classification_nonvacuous :
+  wf (G 2 2 0) /\ forallb (fun c => negb ((c * nnodes (G 2 2 0)) mod nel (G 2 2 0) =? 0)) [1; 2; 3] = true.
+Proof. unfold wf. cbn. repeat split; try lia. Qed.
+
+(* a complete small file: a padded nodal vector and a 2-row cell block on the 3 x 1 grid (nel 3, nnodes 8);
+   the model writes it, and every array decodes to the input words (zeros inserted in the padded one) *)
+Example C20_decode_nonvacuous :
+  let g := G 3 1 0 in
+  let u := map w1 (zrange 16) in
+  let s := map w1 (zrange 6) in
+  match vti_arrays g [(s2z "u", [16], u); (s2z "s", [2; 3], s)] with
+  | Ok ds =>
+    map da_point ds = [true; false; false] /\ map da_ncomp ds = [3; 1; 1] /\
+    map da_name ds = [s2z "u"; s2z "s(0)"; s2z "s(1)"] /\
+    map (fun d => option_map chunk4 (vtk_block_data (vtk_block (concat (da_words d))))) ds
+    = [Some (pad_spec zero_word u); Some (firstn 3 s); Some (skipn 3 s)]
+  | Err _ => False
+  end.
+Proof. vm_compute. repeat split. Qed.
+
+(* a log: three calls, a scalar and a 2 x 2 array, ";" as separator *)
+Example C20_log_nonvacuous :
+  let call (x : Z) := [(s2z "f", LNum x); (s2z "g", LArr [2; 2] [x + 1; x + 2; x + 3; x + 4] false)] in
+  match log_run Z dec [59] l_init [call 10; call 20; call 30] with
+  | Ok st => map (split_on 59) (l_lines st) =
+             [[s2z "Iteration"; s2z "f"; s2z "g[0, 0]"; s2z "g[0, 1]"; s2z "g[1, 0]"; s2z "g[1, 1]"];
+              map dec [0; 10; 11; 12; 13; 14]; map dec [1; 20; 21; 22; 23; 24]; map dec [2; 30; 31; 32; 33; 34]]
+  | Err _ => False
+  end.
+Proof. vm_compute. reflexivity. Qed.
